@@ -145,7 +145,7 @@ theorem batch_dec_enc (comp : Int â†’ Bytes â†’ Bytes) (decomp : Int â†’ Bytes â
       by decide, hpe, by decide, hfs, trivialâŸ©)]
   simp only []
   rw [getArrayLength_put _ _ (inInt4_len _ (by simp only [Nat.reducePow]; omega))
-    (by simp only [List.length_append]; omega) (by omega)]
+    (by simp only [List.length_append]; omega) (by omega) (by omega)]
   simp only []
   have hbl : ((b.lenBody comp).length : Int) = ((comp b.codec (encRecords b.records)).length : Int) + 49 := by omega
   have hcov : (putFields [2, 4, 8, 8, 8, 2, 4] [b.attributes, b.lastOffsetDelta, b.firstTimestamp, b.maxTimestamp,
